@@ -2,6 +2,7 @@ from __future__ import division, print_function
 import numpy as np
 from bct.utils import BCTParamError, binarize, get_rng
 from bct.utils import pick_four_unique_nodes_quickly
+from bct.utils import _verif
 from .clustering import number_of_components
 from ..citations import MASLOV2002, SPORNS2004, RUBINOV2011
 from ..due import BibTeX, due
@@ -70,6 +71,8 @@ def latmio_dir_connected(R, itr, D=None, seed=None):
     # actual number of successful rewirings
     eff = 0
 
+    if _verif.ENABLED:
+        _verif.emit('start', fn='latmio_dir_connected', R=R, i=i, j=j, D=D, ind_rp=ind_rp)
     for it in range(itr):
         att = 0
         while att <= max_attempts:  # while not rewired
@@ -124,6 +127,9 @@ def latmio_dir_connected(R, itr, D=None, seed=None):
                         j[e1] = d
                         j[e2] = b  # reassign edge indices
                         eff += 1
+                        if _verif.ENABLED:
+                            _verif.emit('swap', fn='latmio_dir_connected', R=R, i=i, j=j, e1=e1, e2=e2,
+                                        a=a, b=b, c=c, d=d, eff=eff)
                         break
             att += 1
 
@@ -192,6 +198,8 @@ def latmio_dir(R, itr, D=None, seed=None):
     # actual number of successful rewirings
     eff = 0
 
+    if _verif.ENABLED:
+        _verif.emit('start', fn='latmio_dir', R=R, i=i, j=j, D=D, ind_rp=ind_rp)
     for it in range(itr):
         att = 0
         while att <= max_attempts:  # while not rewired
@@ -221,6 +229,9 @@ def latmio_dir(R, itr, D=None, seed=None):
                     j[e1] = d
                     j[e2] = b  # reassign edge indices
                     eff += 1
+                    if _verif.ENABLED:
+                        _verif.emit('swap', fn='latmio_dir', R=R, i=i, j=j, e1=e1, e2=e2,
+                                    a=a, b=b, c=c, d=d, eff=eff)
                     break
             att += 1
 
@@ -297,6 +308,8 @@ def latmio_und_connected(R, itr, D=None, seed=None):
     # actual number of successful rewirings
     eff = 0
 
+    if _verif.ENABLED:
+        _verif.emit('start', fn='latmio_und_connected', R=R, i=i, j=j, D=D, ind_rp=ind_rp)
     for it in range(itr):
         att = 0
         while att <= max_attempts:
@@ -360,6 +373,9 @@ def latmio_und_connected(R, itr, D=None, seed=None):
                         j[e1] = d
                         j[e2] = b
                         eff += 1
+                        if _verif.ENABLED:
+                            _verif.emit('swap', fn='latmio_und_connected', R=R, i=i, j=j, e1=e1, e2=e2,
+                                        a=a, b=b, c=c, d=d, eff=eff)
                         break
             att += 1
 
@@ -426,6 +442,8 @@ def latmio_und(R, itr, D=None, seed=None):
     # actual number of successful rewirings
     eff = 0
 
+    if _verif.ENABLED:
+        _verif.emit('start', fn='latmio_und', R=R, i=i, j=j, D=D, ind_rp=ind_rp)
     for it in range(itr):
         att = 0
         while att <= max_attempts:
@@ -467,6 +485,9 @@ def latmio_und(R, itr, D=None, seed=None):
                     j[e1] = d
                     j[e2] = b
                     eff += 1
+                    if _verif.ENABLED:
+                        _verif.emit('swap', fn='latmio_und', R=R, i=i, j=j, e1=e1, e2=e2,
+                                    a=a, b=b, c=c, d=d, eff=eff)
                     break
             att += 1
 
@@ -1152,6 +1173,8 @@ def randmio_dir_connected(R, itr, seed=None):
     max_attempts = np.round(n * k / (n * (n - 1)))
     eff = 0
 
+    if _verif.ENABLED:
+        _verif.emit('start', fn='randmio_dir_connected', R=R, i=i, j=j)
     for it in range(int(itr)):
         att = 0
         while att <= max_attempts:  # while not rewired
@@ -1204,6 +1227,9 @@ def randmio_dir_connected(R, itr, seed=None):
                     j[e1] = d  # reassign edge indices
                     j[e2] = b
                     eff += 1
+                    if _verif.ENABLED:
+                        _verif.emit('swap', fn='randmio_dir_connected', R=R, i=i, j=j, e1=e1, e2=e2,
+                                    a=a, b=b, c=c, d=d, eff=eff)
                     break
             att += 1
 
@@ -1244,6 +1270,8 @@ def randmio_dir(R, itr, seed=None):
     max_attempts = np.round(n * k / (n * (n - 1)))
     eff = 0
 
+    if _verif.ENABLED:
+        _verif.emit('start', fn='randmio_dir', R=R, i=i, j=j)
     for it in range(int(itr)):
         att = 0
         while att <= max_attempts:  # while not rewired
@@ -1272,6 +1300,9 @@ def randmio_dir(R, itr, seed=None):
                 i[e1] = d
                 j[e2] = b  # reassign edge indices
                 eff += 1
+                if _verif.ENABLED:
+                    _verif.emit('swap', fn='randmio_dir', R=R, i=i, j=j, e1=e1, e2=e2,
+                                a=a, b=b, c=c, d=d, eff=eff)
                 break
             att += 1
 
@@ -1329,6 +1360,8 @@ def randmio_und_connected(R, itr, seed=None):
     # actual number of successful rewirings
     eff = 0
 
+    if _verif.ENABLED:
+        _verif.emit('start', fn='randmio_und_connected', R=R, i=i, j=j)
     for it in range(int(itr)):
         att = 0
         while att <= max_attempts:  # while not rewired
@@ -1391,6 +1424,9 @@ def randmio_und_connected(R, itr, seed=None):
                     j[e1] = d
                     j[e2] = b  # reassign edge indices
                     eff += 1
+                    if _verif.ENABLED:
+                        _verif.emit('swap', fn='randmio_und_connected', R=R, i=i, j=j, e1=e1, e2=e2,
+                                    a=a, b=b, c=c, d=d, eff=eff)
                     break
             att += 1
 
@@ -1436,6 +1472,8 @@ def randmio_dir_signed(R, itr, seed=None):
 
     #print(itr)
 
+    if _verif.ENABLED:
+        _verif.emit('start', fn='randmio_dir_signed', R=R)
     for it in range(int(itr)):
         #print(it)
         att = 0
@@ -1466,6 +1504,8 @@ def randmio_dir_signed(R, itr, seed=None):
                 R[c, d] = r0_cb
 
                 eff += 1
+                if _verif.ENABLED:
+                    _verif.emit('swap', fn='randmio_dir_signed', R=R, a=a, b=b, c=c, d=d, eff=eff)
                 break
 
             att += 1
@@ -1513,6 +1553,8 @@ def randmio_und(R, itr, seed=None):
     # actual number of successful rewirings
     eff = 0
 
+    if _verif.ENABLED:
+        _verif.emit('start', fn='randmio_und', R=R, i=i, j=j)
     for it in range(int(itr)):
         att = 0
         while att <= max_attempts:  # while not rewired
@@ -1551,6 +1593,9 @@ def randmio_und(R, itr, seed=None):
                 j[e1] = d
                 j[e2] = b  # reassign edge indices
                 eff += 1
+                if _verif.ENABLED:
+                    _verif.emit('swap', fn='randmio_und', R=R, i=i, j=j, e1=e1, e2=e2,
+                                a=a, b=b, c=c, d=d, eff=eff)
                 break
             att += 1
 
@@ -1591,6 +1636,8 @@ def randmio_und_signed(R, itr, seed=None):
     max_attempts = int(np.round(n / 2))
     eff = 0
 
+    if _verif.ENABLED:
+        _verif.emit('start', fn='randmio_und_signed', R=R)
     for it in range(int(itr)):
         att = 0
         while att <= max_attempts:
@@ -1614,6 +1661,8 @@ def randmio_und_signed(R, itr, seed=None):
                 R[c, d] = R[d, c] = r0_cb
 
                 eff += 1
+                if _verif.ENABLED:
+                    _verif.emit('swap', fn='randmio_und_signed', R=R, a=a, b=b, c=c, d=d, eff=eff)
                 break
 
             att += 1
@@ -1660,6 +1709,8 @@ def randomize_graph_partial_und(A, B, maxswap, seed=None):
     j.setflags(write=True)
     m = len(i)
 
+    if _verif.ENABLED:
+        _verif.emit('start', fn='randomize_graph_partial_und', R=A, i=i, j=j, B=B)
     nswap = 0
     while nswap < maxswap:
         while True:
@@ -1694,6 +1745,9 @@ def randomize_graph_partial_und(A, B, maxswap, seed=None):
             j[e1] = d
             j[e2] = b  # reassign edge indices
             nswap += 1
+            if _verif.ENABLED:
+                _verif.emit('swap', fn='randomize_graph_partial_und', R=A, i=i,
+                            j=j, e1=e1, e2=e2, a=a, b=b, c=c, d=d, eff=nswap)
     return A
 
 
@@ -1760,6 +1814,8 @@ def randomizer_bin_und(R, alpha, seed=None):
     if k == 0 or k >= (nr_poss_edges - 1):
         raise BCTParamError("No possible randomization")
 
+    if _verif.ENABLED:
+        _verif.emit('start', fn='randomizer_bin_und', R=R, i=i, j=j)
     for it in range(k):
         if rng.random_sample() > alpha:
             continue  # rewire alpha% of edges
@@ -1811,6 +1867,9 @@ def randomizer_bin_und(R, alpha, seed=None):
                     j.setflags(write=True)
                     j[it] = c
                     i[m] = b
+            if _verif.ENABLED:
+                _verif.emit('swap', fn='randomizer_bin_und', R=R, i=i, j=j,
+                            e1=it, e2=None, a=a, b=b, c=c, d=d, eff=None)
 
     # restore fullnodes
     if np.size(fullnodes):
